@@ -1,2 +1,88 @@
-(* C08 property theorems (placeholder while the proofs are being written) *)
+(* C08 — WorkPool: every task runs exactly once; call() returns after its task finished.
+   Property theorems over EVERY interleaving of submitters / dispatchers / task threads / destructor of the model
+   coq/C08/C08_Model.v (`reachable (init ...) s` = s is reached from the constructed pool by any label sequence):
+   any thread mode (inline : mode < 0, else own/pooled thread), any ring capacity, any number of owned and joining
+   vCPUs.  Only `Theorem name : statement. Proof. exact lemma. Qed.` + Print Assumptions. *)
+From Coq Require Import List Bool Arith.
 From PV Require Import C08.C08_Model C08.C08_Proofs.
+Import ListNotations.
+
+(* every accepted task's body starts at most once, finishes only after it started, and while it has not started it
+   is in exactly the places the code keeps it: the ring, a dispatcher's local, or a helper counted by running_tasks *)
+Theorem task_exactly_once : forall inline cap no nj intr s, reachable (init inline cap no nj intr) s ->
+  forall i t, gett s i = Some t ->
+    t_runs t <= 1 /\ t_fin t <= t_runs t /\
+    (t_runs t = 0 ->
+       In (ITask i) (s_ring s) \/
+       (exists w k, getw s w = Some k /\ w_pc k = WGot (ITask i)) \/
+       (exists w k, getw s w = Some k /\ exw w (t_phase t) = true /\ 1 <= w_running k)).
+Proof. exact task_exactly_once_pf. Qed.
+Print Assumptions task_exactly_once.
+
+(* no delegate_helper ever copied a record other than the one it was started for: while a helper has not copied,
+   the dispatcher's slot still holds its task (the yield_to rule), and every copy made is the helper's own *)
+Theorem record_read_is_own : forall inline cap no nj intr s, reachable (init inline cap no nj intr) s ->
+  g_badcopy s = false /\
+  (forall i t w, gett s i = Some t -> t_phase t = PNew w -> exists k, getw s w = Some k /\ w_slot k = Some i) /\
+  (forall i t w r, gett s i = Some t ->
+     (t_phase t = PCopied w r \/ t_phase t = PBody w r \/ t_phase t = PFin w r \/ t_phase t = PPost w r) -> r = i).
+Proof. exact record_read_is_own_pf. Qed.
+Print Assumptions record_read_is_own.
+
+(* GUARD: no ESHUTDOWN/ETIMEDOUT interrupt is delivered to a caller blocked in call() (s_intr = false).
+   Then call() returns only after its task ran and finished exactly once and signalled, and the caller's frame
+   (lambda + awaiter) is never touched after call() returned. *)
+Theorem call_returns_after_finish : forall inline cap no nj s, reachable (init inline cap no nj false) s ->
+  g_uaf s = false /\
+  forall i t, gett s i = Some t -> t_ret t = true -> t_call t = true /\ t_runs t = 1 /\ t_fin t = 1 /\ t_sig t = true.
+Proof. exact call_returns_after_finish_pf. Qed.
+Print Assumptions call_returns_after_finish.
+
+(* FINDING C08-F1: with such an interrupt (thread.h 520-526: semaphore::wait gives up on ESHUTDOWN / ETIMEDOUT;
+   workerpool.cpp 92 ignores suspend()'s result) call() returns before the task finished, and the task then
+   touches the dead frame. *)
+Theorem call_returns_after_finish_refuted :
+  (exists s t, run (init false 4 1 0 true) witness_intr = Some s /\ gett s 0 = Some t /\ t_ret t = true /\ t_fin t = 0) /\
+  (exists s, run (init false 4 1 0 true) witness_uaf = Some s /\ g_uaf s = true).
+Proof. exact call_returns_after_finish_refuted_pf. Qed.
+Print Assumptions call_returns_after_finish_refuted.
+
+(* an async task object is deleted at most once, only after it ran; a call() task is never deleted *)
+Theorem async_deleted_once : forall inline cap no nj intr s, reachable (init inline cap no nj intr) s ->
+  forall i t, gett s i = Some t ->
+    t_del t <= 1 /\ (t_del t = 1 -> t_call t = false /\ t_fin t = 1) /\ (t_call t = true -> t_del t = 0).
+Proof. exact async_deleted_once_pf. Qed.
+Print Assumptions async_deleted_once.
+
+(* the destructor's final step (destroy the ring, return) is enabled only when the ring holds no task and every
+   accepted task has run, finished, been signalled / deleted and left its worker.  GUARD: the pool has at least
+   one vCPU that ever registered. *)
+Theorem destroy_waits : forall inline cap no nj intr s s', reachable (init inline cap no nj intr) s ->
+  step s LDFinal = Some s' ->
+  (exists w k, getw s w = Some k /\ w_pc k <> WReg) ->
+  rtasks (s_ring s) = [] /\
+  forall i t, gett s i = Some t ->
+    t_phase t = PDone /\ t_runs t = 1 /\ t_fin t = 1 /\ t_del t = (if t_call t then 0 else 1) /\ t_sig t = t_call t.
+Proof. exact destroy_waits_pf. Qed.
+Print Assumptions destroy_waits.
+
+(* degenerate configuration excluded by the guard: WorkPool(0) that nobody joined accepts a task and its destructor
+   returns at once (vcpus.size() == 0: no marker, nothing to join) *)
+Theorem destroy_waits_noworker_refuted :
+  exists s t, run (init false 4 0 0 false) witness_noworker = Some s /\ s_dpc s = DDone /\
+              gett s 0 = Some t /\ t_fin t = 0.
+Proof. exact destroy_waits_noworker_refuted_pf. Qed.
+Print Assumptions destroy_waits_noworker_refuted.
+
+(* `*tasklb.count -= 1` never hits a dispatcher that left main_loop; the ring is never popped after ~impl freed it *)
+Theorem no_stale_access : forall inline cap no nj intr s, reachable (init inline cap no nj intr) s ->
+  g_badcount s = false /\ g_ringuaf s = false.
+Proof. exact no_stale_access_pf. Qed.
+Print Assumptions no_stale_access.
+
+(* the hypotheses of destroy_waits are met by a non-trivial reachable state *)
+Theorem destroy_waits_example :
+  exists s s', run (init false 2 1 0 false) sample_run = Some s /\ step s LDFinal = Some s' /\
+               (exists w k, getw s w = Some k /\ w_pc k <> WReg) /\ length (s_tasks s) = 2.
+Proof. exact sample_reachable. Qed.
+Print Assumptions destroy_waits_example.
